@@ -403,7 +403,11 @@ func run(c *engine.Ctx) {
 		g    *rg.G
 	}
 	var bigCases []bigCase
-	for _, m := range []int{14, 15, 17, 20, 21, 24, 33, 41} {
+	sizes := []int{14, 15, 17, 20, 21, 24, 33, 41}
+	if c.Thorough() {
+		sizes = append(sizes, 62, 85, 128) // more than one merge level of the stable sort (blocks of 20, 40, 80)
+	}
+	for _, m := range sizes {
 		for bi, b := range bigParts(m) {
 			for combo := 0; combo < 4; combo++ {
 				g := b.g
@@ -439,7 +443,11 @@ func run(c *engine.Ctx) {
 			bc := bigCases[bi]
 			c.Obs("large_cell_graphs(n>=21)", 1)
 			c.Obs("big_cell_cases", 1)
-			checkClass(c, "big-cells", "big-cells:"+bc.name, bc.g, c.Pick(40, 160), func(i int) *engine.Rng { return c.Rand("c01-bigcells-"+bc.name, i) }, big.NewInt(2))
+			k := c.Pick(40, 160)
+			if bc.g.N > 60 {
+				k = 24
+			}
+			checkClass(c, "big-cells", "big-cells:"+bc.name, bc.g, k, func(i int) *engine.Rng { return c.Rand("c01-bigcells-"+bc.name, i) }, big.NewInt(2))
 			if bi < 3 {
 				c.Sample("big-cells", map[string]interface{}{"name": bc.name, "n": bc.g.N, "m": bc.g.M()})
 			}
